@@ -9,6 +9,7 @@ import (
 	"github.com/vektah/gqlparser/v2/gqlerror"
 
 	"github.com/99designs/gqlgen/graphql"
+	"github.com/99designs/gqlgen/graphql/handler/lru"
 	"github.com/99designs/gqlgen/zzsym"
 )
 
@@ -528,4 +529,47 @@ func Harness_C03_rules() {
 		zzsym.Assert(len(cache.stored) == 0, "an invalid document is never cached")
 	}
 	zzsym.Reach("c03.rules")
+}
+
+// pairs (valid, invalid) of documents that differ only in white space, line
+// ends or comments - and a pair of valid documents that differ in a literal
+var c03Twins = [][2]string{
+	{"# fetch the name\n{ me { name } }", "# fetch the name { me { name } }"},
+	{"{ me { name } } # trailing\n", "{ me { name } # trailing }"},
+	{"{ user(id: \"a b\") { name } }", "{ user(id: \"a\nb\") { name } }"},
+	{"{ me {name} }", "{ me {nam e} }"},
+	{"{ me { name } }", "{ me { name } }\x00"},
+}
+
+func Setup_C03_cacheKeys() { Setup_C03_gates() }
+
+// Harness_C03_cacheKeys: with a query cache (the map cache or the LRU cache
+// the default server uses) a valid document is served first and then a
+// document that differs from it only in white space, line ends or comments
+// and is invalid: the second is rejected and nothing runs - a cache hit must
+// not stand in for parsing and validating another text.
+func Harness_C03_cacheKeys() {
+	c03Log = nil
+	pair := c03Twins[zzsym.Choice("pair", len(c03Twins))]
+	e := New(c03ES{})
+	e.Use(c03All{&c03Ext{idx: 0, mask: 15}})
+	switch zzsym.Choice("cache", 3) {
+	case 0:
+		e.SetQueryCache(graphql.MapCache[*ast.QueryDocument]{})
+	case 1:
+		e.SetQueryCache(lru.New[*ast.QueryDocument](10))
+	case 2:
+		e.SetQueryCache(lru.New[*ast.QueryDocument](1))
+	}
+	ctx := graphql.StartOperationTrace(context.Background())
+	rc, errs := e.CreateOperationContext(ctx, &graphql.RawParams{Query: pair[0]})
+	zzsym.Assert(len(errs) == 0 && rc != nil, "the valid twin is accepted")
+	c03Log = nil
+	_, errs = e.CreateOperationContext(ctx, &graphql.RawParams{Query: pair[1]})
+	zzsym.Assert(len(errs) > 0, "a document that differs from a cached one only in white space or comments is parsed and validated on its own")
+	for _, ev := range c03Log {
+		ran := len(ev) >= 3 && (ev[:3] == "op." || ev[:3] == "roo" || ev[:3] == "fie" || ev[:3] == "exe")
+		zzsym.Assert(!ran, "nothing runs for a rejected document")
+	}
+	zzsym.Reach("c03.cachekeys")
 }
